@@ -395,9 +395,6 @@ def _count_detail(actuals, inv):
                 continue
             spelled.setdefault(ent, []).append(text)
             kinds.setdefault(ent, G.KERNELS[let][1][pos])
-    for ent in actuals:
-        if ent not in spelled:
-            return "alien"
     for ent in sorted(spelled):
         if actuals.count(ent) > 1:
             forms = spelled[ent]
@@ -409,6 +406,9 @@ def _count_detail(actuals, inv):
             else:
                 how = "same-spelling"
             return f"dup:{G.spelling_class(kinds[ent], ent)}:{how}"
+    for ent in actuals:
+        if ent not in spelled:
+            return "alien"
     for ent in sorted(spelled):
         if ent not in actuals:
             return f"missing:{G.spelling_class(kinds[ent], ent)}"
